@@ -99,6 +99,7 @@ class Pass:
         self.inserts = []      # (node, what) — places where source-derived text enters the returned string unescaped
         self.scans = []        # (node, subject var) — template-syntax scans
         self.internal_flows = []   # (source step, sink step, node)
+        self.helpers = []      # function nodes of helpers the pass delegates substitutions to
         self.steps = []        # ordered steps of the function body: dict(kind, node, label, inserts, scans)
 
 
@@ -109,15 +110,20 @@ def run(p, led, tier):
     if tr is None:
         raise AnchorError("Ribosome.translate not found")
     led.explanation = (
-        "Taint analysis of the renderer. Sources: values read from the binding dictionary, loop items and their keys, "
-        "defaults, filter outputs and the rendered text of included templates. Sinks: the subject string of any "
-        "regex scan with a template-syntax pattern and the receiver of a .replace with a template-syntax key. Each "
-        "function of the renderer is summarised as an ordered list of steps (scan / insert); a step that scans text "
-        "into which an earlier step (of the same pass, of an earlier pass in translate(), or of an earlier iteration) "
-        "inserted unescaped source text is a re-interpretation of data as syntax. A source wrapped in the renderer's "
-        "escaping function (a function that rewrites the delimiter) is not tainted; the driver must undo the escaping "
-        "only after the last pass. Structure rules: a missing simple variable leaves a warning, strict mode raises "
-        "before any pass, an unknown include yields the explicit marker.")
+        "Taint abstract interpretation of Ribosome.translate (deciding rules R1/R2): the template text, the registered "
+        "templates and every match object are unknown; the binding dictionary, the filters, the default text of a "
+        "defaulted variable and the rendering of an included template are marked as data, and the mark travels through "
+        "every operation that builds a text from its operands. The regex engine is replaced by a recorder that logs "
+        "(pattern, subject) for every scan and explores every path of each replacement callback; the delimiter rewrite "
+        "is recognised as the escape and its inverse as the un-escape. Rule: no scan whose pattern (or replace key) is "
+        "template syntax ever sees a subject containing unescaped data, and nothing escaped is left in the returned "
+        "text. The same runs decide: strict mode raises before the first substitution, a simple variable left in place "
+        "adds a warning that reaches Protein.warnings, an unknown include returns the explicit marker. How the passes "
+        "are hosted or dispatched (closures, partial, tables, getattr, phases) does not matter. A syntactic summary of "
+        "the passes (ordered scan/insert steps per function, pass order in the driver) corroborates the interpretation "
+        "on the shapes it recognises. R4 decides completeness and invertibility of the escape rewrite on all brace "
+        "texts up to length 6, R5 that render-state counters are balanced on every exit, R3 that no memo of rendered "
+        "text is keyed on less than the bindings.")
     led.not_decided = ["equality of the rendered text with a left-to-right reference expansion (whole-grammar equivalence)"]
     led.assumptions = ["filters are arbitrary str→str callbacks (their output is a source)"]
     led.rule("C12-R1", "no step scans for template syntax in text that already contains unescaped bound values / items / defaults / included renderings", 5)
@@ -132,84 +138,181 @@ def run(p, led, tier):
     pass_fns = [g for g in below if _has_syntax_scan(g)]
     _CTX["pass_names"] = {g.name for g in pass_fns}
     _CTX["res"], _CTX["rib"] = res, rib
-    passes = {tr.name: _summarise(tr, rib, escapers)}
-    for m in pass_fns:
-        passes[m.name] = _summarise(m, rib, escapers)
-    led.extra["passes"] = sorted(g.name for g in pass_fns)
-    if len(pass_fns) < 4:
-        raise AnchorError(f"renderer passes found: {sorted(g.name for g in pass_fns)} (expected conditionals, loops, includes, variables)")
+    # The taint interpretation of translate() decides R1 and R2 whatever the shape of the code.  The syntactic summary of
+    # the passes that follows corroborates it on the shapes it recognises: while the interpretation holds, a shape the
+    # summary does not recognise is recorded as undecided, never as a violation.
+    taint_ok, esc_seen, unesc_seen = _taint_rules(p, led, rib, tr)
+    cled = led.corroborating(taint_ok, "the taint interpretation of translate()")
+    shared = {}
 
-    n_flows = 0
-    # ---- flows inside one pass
-    for name, ps in passes.items():
-        if name == "translate":
-            continue
-        tainted_by = None
-        for st in ps.steps:
-            key = f"Ribosome.{name} ▸ step {st['label']}"
-            if st["scans"]:
-                if tainted_by is not None:
-                    n_flows += 1
-                    led.fail("C12-R1", f"flow {name}:{tainted_by['label']} → {name}:{st['label']}", where(ps.fi, st["node"]),
-                             f"`{short(st['node'], 60)}` scans text into which step {tainted_by['label']} already substituted {tainted_by['what']}: a value containing template syntax is expanded again",
-                             witness="synthesize('{{?name}} {{secret}}'.replace('{{secret}}',''), name='{{secret}}', secret='s3cr3t') style: a bound value '{{secret}}' is replaced by the secret")
-                else:
-                    led.ok("C12-R1", key, where(ps.fi, st["node"]), "scans text that contains no substituted value yet", nontrivial=True)
-            if st["inserts"] and tainted_by is None:
-                tainted_by = st
-        # loop-carried flow: sequential .replace over keys inside a loop body
-        seen_if = set()
-        for (a, b, node) in ps.internal_flows:
-            if (a, b) in seen_if:
+    def syntactic(led=cled):
+        passes = {tr.name: _summarise(tr, rib, escapers, driver=True)}
+        for m in pass_fns:
+            passes[m.name] = _summarise(m, rib, escapers)
+        led.extra["passes"] = sorted(g.name for g in pass_fns)
+        if len(pass_fns) < 4:
+            raise AnchorError(f"renderer passes found: {sorted(g.name for g in pass_fns)} (expected conditionals, loops, includes, variables)")
+
+        n_flows = 0
+        # ---- flows inside one pass
+        for name, ps in passes.items():
+            if name == "translate":
                 continue
-            seen_if.add((a, b))
-            n_flows += 1
-            led.fail("C12-R1", f"flow {name}:{a} → {name}:{b}", where(ps.fi, node),
-                     f"`{short(node, 70)}` runs once per key on the same text: a value substituted for one key is scanned again for the following keys",
-                     witness="{{#each xs}}{{item}}{{/each}} with xs=['{{index}}'] renders 0 instead of the literal text")
-    # ---- flows across passes in translate()
-    trp = passes["translate"]
-    tainted_by = None
-    order = []
-    for st in trp.steps:
-        callee = st.get("callee")
-        if callee is None or callee not in passes:
-            continue
-        cp = passes[callee]
-        scans = any(s["scans"] for s in cp.steps)
-        inserts = next((s for s in cp.steps if s["inserts"]), None) or (cp.internal_flows and {"what": "loop items"})
-        order.append(callee)
-        key = f"Ribosome.translate ▸ pass {callee}"
-        if scans and tainted_by is not None:
-            n_flows += 1
-            led.fail("C12-R1", f"flow {tainted_by[0]} → {callee}", where(tr, st["node"]),
-                     f"pass {callee} scans the output of pass {tainted_by[0]}, which already contains {tainted_by[1]}: data is re-interpreted as template syntax",
-                     witness="synthesize('{{?name}}', name='{{secret}}', secret='s3cr3t') renders 's3cr3t'")
-        elif scans:
-            led.ok("C12-R1", key, where(tr, st["node"]), "runs on text that contains template source only")
-        if inserts and tainted_by is None:
-            tainted_by = (callee, inserts["what"] if isinstance(inserts, dict) else "bound values")
-    led.extra["pass_order"] = order
-    led.extra["flows_found"] = n_flows
-    if len(order) < 4:
-        raise AnchorError(f"translate() applies {len(order)} recognised passes")
-    # unescape only at the end
-    if escapers:
-        un = _unescape_sites(tr, escapers)
-        key = "Ribosome.translate ▸ escaping undone only after the last pass"
-        if not un:
-            led.fail("C12-R1", key, where(tr, tr.node), "values are escaped but never unescaped: the marker leaks into the output")
-        else:
-            last_pass = max(st["node"].lineno for st in trp.steps if st.get("callee") in passes)
-            if all(u.lineno > last_pass for u in un):
-                led.ok("C12-R1", key, where(tr, un[0]), "the delimiter escape is reverted after every pass has run")
+            tainted_by = None
+            for st in ps.steps:
+                key = f"Ribosome.{name} ▸ step {st['label']}"
+                if st["scans"]:
+                    if tainted_by is not None:
+                        n_flows += 1
+                        led.fail("C12-R1", f"flow {name}:{tainted_by['label']} → {name}:{st['label']}", where(ps.fi, st["node"]),
+                                 f"`{short(st['node'], 60)}` scans text into which step {tainted_by['label']} already substituted {tainted_by['what']}: a value containing template syntax is expanded again",
+                                 witness="synthesize('{{?name}} {{secret}}'.replace('{{secret}}',''), name='{{secret}}', secret='s3cr3t') style: a bound value '{{secret}}' is replaced by the secret")
+                    else:
+                        led.ok("C12-R1", key, where(ps.fi, st["node"]), "scans text that contains no substituted value yet", nontrivial=True)
+                if st["inserts"] and tainted_by is None:
+                    tainted_by = st
+            # loop-carried flow: sequential .replace over keys inside a loop body
+            seen_if = set()
+            for (a, b, node) in ps.internal_flows:
+                if (a, b) in seen_if:
+                    continue
+                seen_if.add((a, b))
+                n_flows += 1
+                led.fail("C12-R1", f"flow {name}:{a} → {name}:{b}", where(ps.fi, node),
+                         f"`{short(node, 70)}` runs once per key on the same text: a value substituted for one key is scanned again for the following keys",
+                         witness="{{#each xs}}{{item}}{{/each}} with xs=['{{index}}'] renders 0 instead of the literal text")
+        # ---- flows across passes in translate()
+        trp = passes["translate"]
+        tainted_by = None
+        order = []
+        for st in trp.steps:
+            callee = st.get("callee")
+            if callee is None or callee not in passes:
+                continue
+            cp = passes[callee]
+            scans = any(s["scans"] for s in cp.steps)
+            inserts = next((s for s in cp.steps if s["inserts"]), None) or (cp.internal_flows and {"what": "loop items"})
+            order.append(callee)
+            key = f"Ribosome.translate ▸ pass {callee}"
+            if scans and tainted_by is not None:
+                n_flows += 1
+                led.fail("C12-R1", f"flow {tainted_by[0]} → {callee}", where(tr, st["node"]),
+                         f"pass {callee} scans the output of pass {tainted_by[0]}, which already contains {tainted_by[1]}: data is re-interpreted as template syntax",
+                         witness="synthesize('{{?name}}', name='{{secret}}', secret='s3cr3t') renders 's3cr3t'")
+            elif scans:
+                led.ok("C12-R1", key, where(tr, st["node"]), "runs on text that contains template source only")
+            if inserts and tainted_by is None:
+                tainted_by = (callee, inserts["what"] if isinstance(inserts, dict) else "bound values")
+        led.extra["pass_order"] = order
+        led.extra["flows_found"] = n_flows
+        if len(order) < 4:
+            raise AnchorError(f"translate() applies {len(order)} recognised passes")
+        # unescape only at the end
+        if escapers:
+            idx_pass = [i for i, st in enumerate(trp.steps) if st.get("callee") in passes]
+            un = [(i, st) for i, st in enumerate(trp.steps) if st["kind"] == "unescape"]
+            key = "Ribosome.translate ▸ escaping undone only after the last pass"
+            if not un:
+                led.fail("C12-R1", key, where(tr, tr.node), "values are escaped but never unescaped: the marker leaks into the output")
+            elif all(i > max(idx_pass) for i, _ in un):
+                led.ok("C12-R1", key, where(un[0][1].get("owner", tr), un[0][1]["node"]), "the delimiter escape is reverted after every pass has run")
             else:
-                led.fail("C12-R1", key, where(tr, un[0]), "the escape is reverted before a later pass scans the text")
+                led.fail("C12-R1", key, where(un[0][1].get("owner", tr), un[0][1]["node"]), "the escape is reverted before a later pass scans the text")
+
+        # ---------------- R2 structure
+        def pass_with(label):
+            for name, ps in passes.items():
+                if name != tr.name and any(st.get("label") == label for st in ps.steps):
+                    return ps.fi
+            return None
+        pv = pass_with("simple")
+        # missing simple variable -> warning on every path of the substitution callback that leaves the slot unexpanded
+        key = f"Ribosome.{pv.name if pv else '?'} ▸ missing simple variable leaves a warning"
+        cbs = [st["cbnode"] for ps in passes.values() for st in ps.steps if st.get("label") == "simple" and st.get("cbnode") is not None]
+        if pv is None or not cbs:
+            led.undecided("C12-R2", key, where(pv or tr, (pv or tr).node), "the substitution callback of the simple-variable scan was not resolved; the warning clause is not decided")
+        else:
+            from ..cfg import CFG
+            verdicts = []
+            for f in cbs:
+                c = CFG(f)
+
+                def is_warning(n):
+                    return isinstance(n, ast.Call) and isinstance(n.func, ast.Attribute) and n.func.attr in ("append", "add", "warn", "warning", "extend") and \
+                        ((isinstance(n.func.value, ast.Name) and n.func.value.id in {a.arg for a in f.args.args + f.args.kwonlyargs} | set(pv.params()) | {"warnings"}) or is_self_attr(n.func.value) or "warn" in src(n.func))
+                wnodes = {c.node_of(n) for n in ast.walk(f) if is_warning(n) and not any(n in ast.walk(g) for g in ast.walk(f) if isinstance(g, (ast.FunctionDef, ast.Lambda)) and g is not f)}
+                leaves = []
+                for r in walk_no_nested(f):
+                    if isinstance(r, ast.Return) and r.value is not None:
+                        substitutes = any(isinstance(x, ast.Call) and ((isinstance(x.func, ast.Attribute) and x.func.attr in escapers) or (isinstance(x.func, ast.Name) and x.func.id in escapers)) for x in ast.walk(r.value)) \
+                            or _callback_inserts(ast.FunctionDef(name="r", args=f.args, body=[a for a in f.body if not isinstance(a, ast.Return)] + [r], decorator_list=[], lineno=f.lineno, col_offset=0), escapers)[0]
+                        if not substitutes:
+                            leaves.append(r)
+                seen = c.reach(starts=[c.entry], avoid=wnodes)
+                silent = [r for r in leaves if c.node_of(r) in seen]
+                verdicts.append((f, leaves, silent))
+            if any(not lv for _, lv, _ in verdicts):
+                led.undecided("C12-R2", key, where(pv, pv.node), "no return of the callback leaves the slot as written (shape not recognised); the warning clause is not decided")
+            elif any(sl for _, _, sl in verdicts):
+                f, _, sl = next(v for v in verdicts if v[2])
+                led.fail("C12-R2", key, where(pv, sl[0]), f"`{short(sl[0])}` leaves an unbound simple variable in place on a path that records no warning")
+            else:
+                led.ok("C12-R2", key, where(pv, pv.node), "every return of the callback that leaves `{{name}}` in place is preceded by a recorded warning on all of its paths")
+        # strict mode raises before rendering: in translate itself, or in a helper it calls before the first pass
+        cfg_of(tr, led)
+        first_pass_i = min((i for i, st in enumerate(trp.steps) if st.get("callee") in passes), default=10**9)
+        sr = [(i, st) for i, st in enumerate(trp.steps) if st["kind"] == "strict-raise" and i < first_pass_i]
+        key = "Ribosome.translate ▸ strict mode raises before rendering"
+        if sr:
+            own = sr[0][1].get("owner", tr)
+            led.ok("C12-R2", key, where(own, sr[0][1]["node"]), f"`raise` under `self.strict` for a missing required variable precedes every pass ({own.qual})")
+        else:
+            led.fail("C12-R2", key, where(tr, tr.node), "strict mode does not raise for a missing required variable before rendering starts")
+        inc = pass_with("includes")
+        key = f"Ribosome.{inc.name if inc else '?'} ▸ unknown include yields the explicit marker"
+        icbs = [st["cbnode"] for ps in passes.values() for st in ps.steps if st.get("label") == "includes" and st.get("cbnode") is not None]
+        hosts = ([inc.node] if inc is not None else []) + icbs
+
+        def marker_return(fn):
+            for r in ast.walk(fn):
+                if isinstance(r, ast.Return) and r.value is not None and any(isinstance(x, ast.Constant) and isinstance(x.value, str) and "Unknown template" in x.value for x in ast.walk(r.value)):
+                    return r
+            return None
+        okm = next((m for m in (marker_return(h) for h in hosts) if m is not None), None)
+        if inc is None or not hosts:
+            led.undecided("C12-R2", key, where(tr, tr.node), "the include pass was not recognised; the marker clause is not decided")
+        elif okm is not None:
+            led.ok("C12-R2", key, where(inc, okm), "`[Unknown template: name]` is returned when the name is not registered")
+        else:
+            led.fail("C12-R2", key, where(inc, inc.node), "an unknown include is not rendered as the explicit marker")
+        shared["trp"] = trp
+
+    cled.run_section(("C12-R1", "C12-R2"), syntactic, RB)
+    trp = shared.get("trp")
 
     # ---------------- R4 the escape is complete and invertible (decided on the literals of the replace rule)
     led.rule("C12-R4", "the escaping rewrite leaves no template delimiter in any text (overlapping occurrences included) and the driver's rewrite inverts it", 1)
     esc_rules = _escape_rules(rib, p, escapers)
     un_rules = _unescape_rules(tr)
+    if not un_rules and trp is not None:
+        for st in trp.steps:
+            if st["kind"] != "unescape":
+                continue
+            f_ = st["node"].func
+            if isinstance(f_, ast.Attribute) and f_.attr == "replace":
+                un_rules += [r for r in _replace_literals(st["node"]) if r[2] in ("{{", "{")]
+            else:
+                g_ = rib.methods.get(f_.attr if isinstance(f_, ast.Attribute) else getattr(f_, "id", ""))
+                if g_ is not None:
+                    un_rules += [r for r in _replace_literals(g_.node) if r[2] in ("{{", "{")]
+    # the rewrites the interpretation saw being applied are the reference; the literal rules found in the source only
+    # give the report a position
+    known = {(a, b) for _, (_, _, a, b) in esc_rules.items()}
+    for (a, b) in esc_seen:
+        if (a, b) not in known:
+            esc_rules[f"rewrite {a!r}→{b!r}"] = (tr, tr.node, a, b)
+    if unesc_seen:
+        un_rules = [(None, a, b) for (a, b) in unesc_seen]
     import itertools as _it
     words = ["".join(w) for k in range(0, 7) for w in _it.product("{}x", repeat=k)]
     for name, (fi_e, node_e, A, B) in sorted(esc_rules.items()):
@@ -292,64 +395,111 @@ def run(p, led, tier):
     if n_cache == 0:
         led.ok("C12-R3", "Ribosome ▸ rendering keeps no memo between calls", RB, f"{len(reach)} functions on the rendering path write no keyed state", nontrivial=False)
 
-    # ---------------- R2 structure
-    def pass_with(label):
-        for name, ps in passes.items():
-            if name != tr.name and any(st.get("label") == label for st in ps.steps):
-                return ps.fi
-        return None
-    pv = pass_with("simple")
-    # missing simple variable -> warning on the path that leaves it unexpanded
-    okw = False
-    if pv is not None:
-        cbs = [f for f in ast.walk(pv.node) if isinstance(f, ast.FunctionDef) and f is not pv.node]
-        for f in cbs:
-            rets = [r for r in ast.walk(f) if isinstance(r, ast.Return)]
-            for r in rets:
-                if isinstance(r.value, ast.Call) and src(r.value).endswith("group(0)"):
-                    # the statement just before must record a warning (append to a list the pass received, or to self state)
-                    body = _enclosing_body(f, r)
-                    idx = body.index(r) if r in body else -1
-                    if idx > 0:
-                        prev = body[idx - 1]
-                        for c in ast.walk(prev):
-                            if isinstance(c, ast.Call) and isinstance(c.func, ast.Attribute) and c.func.attr in ("append", "add", "warn", "warning") and \
-                                    ((isinstance(c.func.value, ast.Name) and c.func.value.id in pv.params()) or is_self_attr(c.func.value) or "warn" in src(c.func)):
-                                okw = True
-    key = f"Ribosome.{pv.name if pv else '?'} ▸ missing simple variable leaves a warning"
-    if okw:
-        led.ok("C12-R2", key, where(pv, pv.node), "the callback that leaves `{{name}}` in place records a warning first")
-    else:
-        led.fail("C12-R2", key, where(pv or tr, (pv or tr).node), "an unbound simple variable is left (or dropped) without a warning")
-    # strict mode raises before rendering: in translate itself, or in a helper it calls before the first pass
-    cfg = cfg_of(tr, led)
-    first_pass = min((st["node"].lineno for st in trp.steps if st.get("callee") in passes), default=10**9)
 
-    def strict_raises(fi_, cfg_):
-        rs = [n for n in cfg_.nodes if n.kind == "stmt" and isinstance(n.ast, ast.Raise)]
-        return [n for n in rs if any(is_self_attr(a, "strict") and pol for a, pol, _ in guard_facts(cfg_, n))]
-    strict_raise = [n for n in strict_raises(tr, cfg) if n.line < first_pass]
-    via = None
-    if not strict_raise:
-        for n in walk_no_nested(tr.node):
-            if isinstance(n, ast.Call) and n.lineno < first_pass:
-                for g in res.resolve_call(tr, n):
-                    if g.cls is rib and g is not tr and g.name not in passes and strict_raises(g, cfg_of(g, led)):
-                        via = (n, g)
+
+
+def _taint_rules(p, led, rib, tr):
+    """C12-R1 / C12-R2 decided by the taint interpretation of translate() (see c12taint)"""
+    from . import c12taint as tt
+    mrna_cls = next((ci for lst in p.classes.values() for ci in lst if ci.module is rib.module and ci.name == "mRNA"), None)
+    if mrna_cls is None:
+        raise AnchorError("mRNA class not found next to Ribosome")
+    try:
+        runs = {False: tt.interpret(p, rib, tr, mrna_cls, False), True: tt.interpret(p, rib, tr, mrna_cls, True)}
+    except tt.Imprecise as e:
+        raise AnchorError(f"taint interpretation of Ribosome.translate: {e}")
+    allruns = runs[False] + runs[True]
+    led.extra["taint_paths"] = {"lenient": len(runs[False]), "strict": len(runs[True])}
+    ok = True
+
+    def loc(ev):
+        return f"{ev['where'][0]}:{ev['where'][1]}"
+    # ---- R1: no scan sees unescaped data
+    sites = {}
+    for r in allruns:
+        for ev in r["events"]:
+            lab = ev.get("label") or ("loop-key replace" if ev["via"] == "replace" and ev["pattern"] != "<matched construct>" else "construct replace")
+            k = (lab, ev["via"], ev["substitution"])
+            st = sites.setdefault(k, dict(n=0, bad=None, where=loc(ev), cb=0))
+            st["n"] += 1
+            st["cb"] = max(st["cb"], len(ev["callback_paths"]))
+            if ev["data"] and st["bad"] is None:
+                st["bad"] = ev
+    for (lab, via, subst), st in sorted(sites.items(), key=lambda kv: (kv[0][0], kv[0][1])):
+        key = f"Ribosome ▸ {'substitution' if subst else 'scan'} of {lab} ({via})"
+        if st["bad"] is not None:
+            ok = False
+            ev = st["bad"]
+            led.fail("C12-R1", key, loc(ev),
+                     f"this scan for template syntax runs on text that already contains unescaped {', '.join(ev['data'])}: a value containing template syntax is expanded again",
+                     witness="bind a value '{{secret}}' (or a loop item / default / included text containing a construct): it is expanded by this later scan")
+        else:
+            led.ok("C12-R1", key, st["where"], f"on all {st['n']} interpreted occurrence(s) the subject contains template source and escaped data only" + (f"; {st['cb']} callback path(s) explored" if st["cb"] else ""))
+    # ---- R1: the escape is undone at the end (nothing escaped is returned) and only there (covered by the rule above)
+    finals = [r["result"] for r in allruns if "result" in r]
+    key = "Ribosome.translate ▸ returned text carries no escape marker"
+    leaks = [x for x in finals if isinstance(x, tt.Obj) and isinstance(x.fields.get("sequence"), tt.Unknown) and tt.E in x.fields["sequence"].sym]
+    if not finals:
+        raise AnchorError("taint interpretation: translate() never returns")
+    if leaks:
+        ok = False
+        led.fail("C12-R1", key, where(tr, tr.node), "values are escaped but the returned text is not unescaped on every path: the marker leaks into the output")
+    else:
+        led.ok("C12-R1", key, where(tr, tr.node), f"{len(finals)} returning path(s): every escaped value has been restored in the returned text")
+    # ---- R2 strict mode raises before the first substitution
     key = "Ribosome.translate ▸ strict mode raises before rendering"
-    if strict_raise:
-        led.ok("C12-R2", key, where(tr, strict_raise[0].ast), "`raise` under `self.strict` for a missing required variable precedes every pass")
-    elif via:
-        led.ok("C12-R2", key, where(tr, via[0]), f"`{short(via[0], 50)}` runs before the first pass and raises under `self.strict` ({via[1].qual})")
+    sraises = [r for r in runs[True] if "raised" in r]
+    lraises = [r for r in runs[False] if "raised" in r]
+    late = [r for r in sraises if r["raised_after"] > 0]
+    if late:
+        ok = False
+        led.fail("C12-R2", key, where(tr, tr.node), f"in strict mode {late[0]['raised']!r} is raised after {late[0]['raised_after']} substitution(s) have already run")
+    elif len(sraises) <= len(lraises):
+        ok = False
+        led.fail("C12-R2", key, where(tr, tr.node), "strict mode raises on no path on which lenient mode does not: a missing required variable is not an error")
     else:
-        led.fail("C12-R2", key, where(tr, tr.node), "strict mode does not raise for a missing required variable before rendering starts")
-    inc = pass_with("includes")
-    key = f"Ribosome.{inc.name if inc else '?'} ▸ unknown include yields the explicit marker"
-    okm = inc is not None and any(isinstance(r, ast.Return) and isinstance(r.value, ast.JoinedStr) and "Unknown template" in src(r.value) for r in ast.walk(inc.node))
-    if okm:
-        led.ok("C12-R2", key, where(inc, inc.node), "`[Unknown template: name]` is returned when the name is not registered")
+        led.ok("C12-R2", key, where(tr, tr.node), f"{len(sraises)} strict path(s) raise, each before the first substitution; lenient mode raises on {len(lraises)}")
+    # ---- R2 a simple variable left in place comes with a warning
+    key = "Ribosome ▸ missing simple variable leaves a warning"
+    n_leave, silent = 0, None
+    for r in runs[False]:
+        if "result" not in r or not isinstance(r["result"], tt.Obj):
+            continue
+        W = r["result"].fields.get("warnings")
+        for ev in r["events"]:
+            if ev.get("label") != "simple" or not ev["substitution"] or ev["level"] != 0:
+                continue      # the warnings of an included rendering belong to that rendering's own result
+            for cp in ev["callback_paths"]:
+                v = cp["value"]
+                sym = v.sym if isinstance(v, tt.Unknown) else repr(v)
+                if cp["kind"] == "ret" and tt.S in sym and not any(m in sym for m in (tt.T, tt.E, tt.U)):
+                    n_leave += 1
+                    warned = any(cp["t0"] < t <= cp["t1"] and isinstance(W, list) and any(val is w for w in W) for t, lst, val in r["appends"])
+                    if not warned and silent is None:
+                        silent = ev
+    if n_leave == 0:
+        led.undecided("C12-R2", key, where(tr, tr.node), "no interpreted path of the simple-variable substitution returns the matched text unchanged; the warning clause is not decided")
+    elif silent is not None:
+        ok = False
+        led.fail("C12-R2", key, loc(silent), "a path of the simple-variable substitution leaves `{{name}}` in place without adding a warning to Protein.warnings")
     else:
-        led.fail("C12-R2", key, where(inc or tr, (inc or tr).node), "an unknown include is not rendered as the explicit marker")
+        led.ok("C12-R2", key, where(tr, tr.node), f"{n_leave} interpreted path(s) leave the slot as written; each adds a message that ends up in Protein.warnings")
+    # ---- R2 unknown include -> explicit marker
+    key = "Ribosome ▸ unknown include yields the explicit marker"
+    inc_paths = [cp for r in allruns for ev in r["events"] if ev.get("label") == "includes" and ev["substitution"] for cp in ev["callback_paths"] if cp["kind"] == "ret"]
+    marker = [cp for cp in inc_paths if "Unknown template" in (cp["value"].sym if isinstance(cp["value"], tt.Unknown) else str(cp["value"]))]
+    if not inc_paths:
+        led.undecided("C12-R2", key, where(tr, tr.node), "no include substitution was interpreted; the marker clause is not decided")
+    elif marker:
+        led.ok("C12-R2", key, where(tr, tr.node), f"{len(marker)} of {len(inc_paths)} interpreted include path(s) return `[Unknown template: …]`")
+    else:
+        ok = False
+        led.fail("C12-R2", key, where(tr, tr.node), "no path of the include substitution returns the explicit `[Unknown template: name]` marker")
+    esc = sorted({x for r in allruns for x in r["escapes"]})
+    unesc = sorted({x for r in allruns for x in r["unescapes"]})
+    led.extra["escape_rewrites_seen"] = [repr(x) for x in esc]
+    led.extra["unescape_rewrites_seen"] = [repr(x) for x in unesc]
+    return ok, esc, unesc
 
 
 # ----------------------------------------------------------------------
@@ -378,6 +528,36 @@ def _ctx_names():
                                 changed = True
         _CTX["ctx_names"] = names
     return _CTX["ctx_names"]
+
+
+def _resolve_callback(rep, callbacks):
+    """the function node a replacement argument denotes: a nested def, a lambda, a method (self.m / Class.m), a module
+    level function of the renderer's module — directly or under functools.partial(f, …)"""
+    rib = _CTX.get("rib")
+    if isinstance(rep, ast.Call) and (dotted(rep.func) or "").split(".")[-1] == "partial" and rep.args:
+        return _resolve_callback(rep.args[0], callbacks)
+    if isinstance(rep, ast.Name):
+        if rep.id in callbacks:
+            return callbacks[rep.id]
+        res = _CTX.get("res")
+        if res is not None and rib is not None:
+            g = next((x for x in res.p.functions.get(rep.id, []) if x.module is rib.module and x.cls is None), None)
+            if g is not None:
+                return g.node
+        return None
+    if isinstance(rep, ast.Attribute) and isinstance(rep.value, ast.Name) and rib is not None and rep.value.id in ("self", "cls", rib.name) and rep.attr in rib.methods:
+        return rib.methods[rep.attr].node
+    if isinstance(rep, ast.Lambda):
+        return ast.FunctionDef(name="<lambda>", args=rep.args, body=[ast.Return(value=rep.body)], decorator_list=[], lineno=rep.lineno, col_offset=rep.col_offset)
+    return None
+
+
+def _note_ctx_params(fn_node):
+    """dict-annotated parameters of a resolved callback carry the binding dictionary too"""
+    names = _ctx_names()
+    for a in fn_node.args.args + fn_node.args.kwonlyargs:
+        if a.annotation is not None and "dict" in src(a.annotation).lower() and a.arg not in ("self", "cls"):
+            names.add(a.arg)
 
 
 def _has_syntax_scan(g):
@@ -514,6 +694,10 @@ def _source_kind(e, fn, escapers, local_sources):
             return None      # the matched template text itself
         if isinstance(f, ast.Attribute) and f.attr == "join" and e.args:
             return _source_kind(e.args[0], fn, escapers, local_sources)
+        if isinstance(f, ast.Attribute) and f.attr == "replace" and len(e.args) > 1:
+            if const_str(e.args[0]) in ("{", "{{") and const_str(e.args[1]) is not None and "{{" not in const_str(e.args[1]) and const_str(e.args[1]) != const_str(e.args[0]):
+                return None      # an inline delimiter rewrite is an escape
+            return _source_kind(e.args[1], fn, escapers, local_sources) or _source_kind(f.value, fn, escapers, local_sources)
         if isinstance(f, ast.Attribute) and f.attr == "translate":
             return "rendered included template"
         if is_self_attr(f) and e.args:
@@ -591,8 +775,21 @@ def _callback_inserts(cb, escapers):
     return None, local_sources
 
 
-def _summarise(fi, rib, escapers):
+def _summarise(fi, rib, escapers, driver=False, depth=0):
+    """ordered steps of one renderer function.  For the driver (translate) the helpers it delegates to are inlined in
+    call order (phases such as initiate / elongate / terminate), so that the order of passes, of the strict-mode raise
+    and of the unescaping is the order in which they run, whichever function hosts them"""
     ps = Pass(fi)
+    strict_raise_nodes = set()
+    if driver:
+        try:
+            from ..cfg import CFG as _CFG
+            c_ = _CFG(fi.node)
+            for n_ in c_.nodes:
+                if n_.kind == "stmt" and isinstance(n_.ast, ast.Raise) and any(is_self_attr(a, "strict") and pol for a, pol, _ in guard_facts(c_, n_)):
+                    strict_raise_nodes.add(n_.ast)
+        except Exception:      # noqa: BLE001 - the corroborating position of the raise is then simply not found
+            pass
     callbacks = {n.name: n for n in ast.walk(fi.node) if isinstance(n, ast.FunctionDef) and n is not fi.node}
     consts = {}
     for n in walk_no_nested(fi.node):
@@ -613,12 +810,26 @@ def _summarise(fi, rib, escapers):
     flat(fi.node.body)
     seen_calls = set()
     for st in stmts:
+        if st in strict_raise_nodes:
+            ps.steps.append(dict(kind="strict-raise", node=st, label="strict-raise", owner=fi, inserts=False, scans=False))
         for c in ast.walk(st) if not isinstance(st, (ast.For, ast.If, ast.While, ast.Try, ast.With)) else ast.walk(getattr(st, "iter", None) or getattr(st, "test", None) or ast.Pass()):
             if not isinstance(c, ast.Call) or id(c) in seen_calls:
                 continue
             seen_calls.add(id(c))
             d = dotted(c.func) or ""
             pass_names = _CTX.get("pass_names", set())
+            if driver:
+                if (isinstance(c.func, ast.Attribute) and c.func.attr == "replace" and len(c.args) > 1 and const_str(c.args[1]) in ("{{", "{")
+                        and const_str(c.args[0]) not in ("{{", "{")) or _is_unescaper_call(c):
+                    ps.steps.append(dict(kind="unescape", node=c, label="unescape", owner=fi, inserts=False, scans=False))
+                    continue
+                hname = c.func.attr if isinstance(c.func, ast.Attribute) and isinstance(c.func.value, ast.Name) and c.func.value.id in ("self", "cls", rib.name) else None
+                if hname and hname in rib.methods and hname not in pass_names and hname != "translate" and hname not in escapers and depth < 3 and rib.methods[hname] is not fi:
+                    sub = _summarise(rib.methods[hname], rib, escapers, driver=True, depth=depth + 1)
+                    for st2 in sub.steps:
+                        st2.setdefault("owner", rib.methods[hname])
+                    ps.steps.extend(sub.steps)
+                    continue
             # a call of another pass / of translate() itself (recursion for includes), directly or through a table of passes
             if is_self_attr(c.func) and (c.func.attr in pass_names or c.func.attr == "translate"):
                 ps.steps.append(dict(kind="call", node=c, label=c.func.attr, callee=c.func.attr, inserts=False, scans=False))
@@ -636,14 +847,9 @@ def _summarise(fi, rib, escapers):
                     continue
                 label = _label(pat)
                 inserts, what = False, None
-                cbnode = None
-                if rep is not None:
-                    if isinstance(rep, ast.Name) and rep.id in callbacks:
-                        cbnode = callbacks[rep.id]
-                    elif is_self_attr(rep) and _CTX.get("rib") is not None and rep.attr in _CTX["rib"].methods:
-                        cbnode = _CTX["rib"].methods[rep.attr].node
-                    elif isinstance(rep, ast.Lambda):
-                        cbnode = ast.FunctionDef(name="<lambda>", args=rep.args, body=[ast.Return(value=rep.body)], decorator_list=[], lineno=rep.lineno, col_offset=rep.col_offset)
+                cbnode = _resolve_callback(rep, callbacks) if rep is not None else None
+                if cbnode is not None:
+                    _note_ctx_params(cbnode)
                 if cbnode is not None:
                         k, _ = _callback_inserts(cbnode, escapers)
                         inserts, what = bool(k), k
@@ -657,7 +863,18 @@ def _summarise(fi, rib, escapers):
                                         val_kind = _source_kind(b.args[1], cbnode, escapers, dict(ls, value="loop items") if "value" in src(b.args[1]) else ls)
                                         if val_kind:
                                             ps.internal_flows.append((f"{label}:key[i]", f"{label}:key[i+1]", b))
-                ps.steps.append(dict(kind="scan", node=c, label=label, scans=True, inserts=inserts, what=what))
+                ps.steps.append(dict(kind="scan", node=c, label=label, scans=True, inserts=inserts, what=what, cbnode=cbnode))
+            elif (isinstance(c.func, ast.Name) or (isinstance(c.func, ast.Attribute) and isinstance(c.func.value, ast.Name) and c.func.value.id in ("self", "cls", rib.name))) \
+                    and not driver and _resolve_callback(c.func, callbacks) is not None and (c.func.attr if isinstance(c.func, ast.Attribute) else c.func.id) not in escapers \
+                    and (c.func.attr if isinstance(c.func, ast.Attribute) else c.func.id) not in pass_names:
+                # result = helper(..., result, match): the helper's return substitutes into the running text
+                hnode = _resolve_callback(c.func, callbacks)
+                _note_ctx_params(hnode)
+                k, _ = _callback_inserts(hnode, escapers)
+                if k:
+                    ps.steps.append(dict(kind="insert", node=c, label="replace", scans=False, inserts=True, what=k))
+                if hnode is not None:
+                    ps.helpers.append(hnode)
             elif isinstance(c.func, ast.Attribute) and c.func.attr == "replace" and c.args and len(c.args) > 1 and isinstance(c.func.value, ast.Name):
                 # result = result.replace(match.group(0), value)
                 k = _source_kind(c.args[1], fi.node, escapers, {"value_or_default": "default text"})
